@@ -779,6 +779,9 @@ def v_namedexpr(run):
         sk.facts += px_facts(px) + [lt(px.t, e.start.t), le(e.end.t, nxt.t)]
         x = name_node('x', px)
         sk.node = px.put(ast.NamedExpr(target=x, value=e.node()))
+        # the extent the parser records: the expression ends where its value ends (on whatever line that is)
+        sk.node.end_lineno, sk.node.end_col_offset = SInt(e.end.l), SInt(e.end.c)
+        x.end_lineno, x.end_col_offset = x.lineno, x.col_offset + 1
         sk.e, sk.x, sk.nxt = e, x, nxt
         return sk
 
